@@ -64,7 +64,10 @@ def getData (d : ImageData) (h : Header) : Except Err (List (List UInt8)) :=
   let data : Except Err (List UInt8) := match d.comp with
     | .raw => if d.payload.length ≥ length then .ok (d.payload.take length) else .error .assertionError
     | .rle => if d.payload.length = length then .ok d.payload else .error .valueError
-    | _ => if d.payload.length = length then .ok d.payload else .error .assertionError
+    | _ =>
+      -- `_inflate(data, length)` (repo 72f34ff) stops at the expected size: more than that is a `ValueError`
+      if length < d.payload.length then .error .valueError
+      else if d.payload.length = length then .ok d.payload else .error .assertionError
   match data with
   | .error e => .error e
   | .ok data =>
